@@ -37,6 +37,7 @@ from collections.abc import Iterable
 import numpy as np
 
 from vmc.parallel import run_shards, shard
+from vmc import bfs
 from vmc.report import Check
 
 PID = "C17"
@@ -291,7 +292,7 @@ def diff(a, b, path="", owner=""):
         if type(a) is not type(b):
             return (owner, "%s->%s" % (tname(a), tname(b)), "%s: %r -> %r" % (path, a, b))
         cls = type(a).__name__
-        va, vb = vars(a), vars(b)
+        va, vb = bfs.state_of(a), bfs.state_of(b)
         if set(va) != set(vb):
             return (cls, "attributes", "%s: %r -> %r" % (path, sorted(va), sorted(vb)))
         for k in sorted(va):
